@@ -5,7 +5,6 @@ import (
 	"context"
 	"errors"
 	"fmt"
-	"io"
 	"log"
 	"strings"
 	"time"
@@ -24,6 +23,7 @@ type Violation struct {
 
 type entryEv struct {
 	graph, task, attempt int
+	phase                int
 	seq, spawnSeq        uint64
 	gname                string
 	vc                   simrt.VC
@@ -50,13 +50,16 @@ type Result struct {
 }
 
 type runState struct {
-	sc    *Scenario
-	m     *Model   // declared graph of g0
-	ms    []*Model // declared graph per graph (construction calls can be per graph)
-	res   *Result
-	ng    int
-	unit  time.Duration
-	sents []error
+	sc        *Scenario
+	m         *Model   // declared graph of g0
+	ms        []*Model // declared graph per graph (construction calls can be per graph)
+	res       *Result
+	ng        int
+	phase     int    // 1, or 2 during/after the second Run of a Phase2 scenario
+	carried   []bool // phase 2: tasks that completed successfully in the first Run
+	curMaxPar int
+	unit      time.Duration
+	sents     []error
 
 	entries    []entryEv
 	attempts   [][]int
@@ -107,8 +110,8 @@ func (r *runState) limit() int {
 	if r.sc.Serial {
 		return 1
 	}
-	if r.sc.MaxPar > 0 {
-		return r.sc.MaxPar
+	if r.curMaxPar > 0 {
+		return r.curMaxPar
 	}
 	return 1 << 30
 }
@@ -213,7 +216,8 @@ func attemptOutput(a AttemptSpec, g, task, attempt int) []string {
 // Execute runs one scenario under the given chooser and evaluates every oracle.
 func Execute(sc *Scenario, ch simrt.Chooser, keepTrace bool) *Result {
 	res := &Result{Faults: map[string]int{}, Probes: map[string]int{}}
-	r := &runState{sc: sc, m: sc.Model(), res: res, ng: sc.Graphs, hist: 14695981039346656037}
+	r := &runState{sc: sc, m: sc.Model(), res: res, ng: sc.Graphs, hist: 14695981039346656037, phase: 1, curMaxPar: sc.MaxPar}
+	r.carried = make([]bool, sc.N)
 	if r.ng < 1 {
 		r.ng = 1
 	}
@@ -268,7 +272,13 @@ func Execute(sc *Scenario, ch simrt.Chooser, keepTrace bool) *Result {
 		MapBase:      sc.MapBase,
 		KeepTrace:    keepTrace,
 		OnSettled:    r.onSettled,
-		OnForeignFire: func(seq uint64) {
+		OnForeignFire: func(seq uint64, polled bool) {
+			if !polled {
+				// the end of a blocking wait on ctx.Done() may be a mere wake-up; only a
+				// non-blocking poll that fires is an unambiguous observation (DESIGN §14.5)
+				res.Probes["cancel_ended_a_blocking_wait"]++
+				return
+			}
 			name := simrt.CurName()
 			for g := 0; g < ng; g++ {
 				if name == fmt.Sprintf("run:g%d", g) && r.obsSeq[g] == 0 {
@@ -342,7 +352,8 @@ func (r *runState) taskFn(i, alt int, cancel context.CancelFunc) getoptions.Comm
 		r.attempts[g][i]++
 		seq := simrt.Note("entry", fmt.Sprintf("g%d t%02d #%d", g, i, k))
 		r.histAdd(fmt.Sprintf("entry g%d t%02d #%d", g, i, k))
-		r.entries = append(r.entries, entryEv{g, i, k, seq, simrt.CurSpawnSeq(), simrt.CurName(), vc})
+		r.entries = append(r.entries, entryEv{g, i, k, r.phase, seq, simrt.CurSpawnSeq(), simrt.CurName(), vc})
+		tagK := k + 100*(r.phase-1) // output tags of the second Run are distinct
 		as := sc.Tasks[i].Attempts
 		a := as[len(as)-1]
 		if k < len(as) {
@@ -380,7 +391,7 @@ func (r *runState) taskFn(i, alt int, cancel context.CancelFunc) getoptions.Comm
 			r.res.MaxRunning = r.executing[g]
 		}
 		if r.executing[g] > r.limit() {
-			what := fmt.Sprintf("SetMaxParallel(%d)", sc.MaxPar)
+			what := fmt.Sprintf("SetMaxParallel(%d)", r.curMaxPar)
 			if sc.Serial {
 				what = "serial mode"
 			}
@@ -410,12 +421,18 @@ func (r *runState) taskFn(i, alt int, cancel context.CancelFunc) getoptions.Comm
 			r.doCancel(cancel, "cancel_in_task")
 		}
 		if sc.Buffer {
-			for c, text := range attemptOutput(a, g, i, k) {
+			for c, text := range attemptOutput(a, g, i, tagK) {
 				w := dag.Stdout(ctx)
 				if c%2 == 1 {
 					w = dag.Stderr(ctx)
 				}
-				io.WriteString(w, text)
+				// plain Write: io.WriteString would pick a promoted WriteString method and bypass
+				// whatever the writer handed out by dag does in Write
+				if c%3 == 2 {
+					fmt.Fprint(w, text)
+				} else {
+					w.Write([]byte(text))
+				}
 				if c+1 < a.Chunks {
 					simrt.Yield()
 				}
@@ -501,6 +518,7 @@ func (r *runState) main() {
 		return tasks[c.T]
 	}
 	graphs := make([]*dag.Graph, ng)
+	var applyCalls func(gr *dag.Graph, g int, calls []Call)
 	for g := 0; g < ng; g++ {
 		gr := dag.NewGraph(fmt.Sprintf("g%d", g))
 		gr.TickerDuration = time.Duration(sc.TickNS)
@@ -513,41 +531,45 @@ func (r *runState) main() {
 		if sc.Buffer {
 			gr.SetOutputBuffer(&simWriter{r, g})
 		}
-		for _, c := range sc.Build {
-			if c.Only != 0 && c.Only != g+1 {
-				continue
-			}
-			switch c.Op {
-			case "add":
-				if c.Via == "graph" {
-					gr.AddTask(gr.Task(fmt.Sprintf("t%02d", c.T)))
-				} else {
-					gr.AddTask(pick(c))
+		apply := func(gr *dag.Graph, g int, calls []Call) {
+			for _, c := range calls {
+				if c.Only != 0 && c.Only != g+1 {
+					continue
 				}
-			case "dep":
-				ds := make([]*dag.Task, len(c.Deps))
-				for j, d := range c.Deps {
-					ds[j] = tasks[d]
+				switch c.Op {
+				case "add":
+					if c.Via == "graph" {
+						gr.AddTask(gr.Task(fmt.Sprintf("t%02d", c.T)))
+					} else {
+						gr.AddTask(pick(c))
+					}
+				case "dep":
+					ds := make([]*dag.Task, len(c.Deps))
+					for j, d := range c.Deps {
+						ds[j] = tasks[d]
+					}
+					gr.TaskDependsOn(pick(c), ds...)
+				case "retries":
+					gr.TaskRetries(pick(c), c.R)
+				case "lookup":
+					gr.Task(fmt.Sprintf("t%02d", c.T))
+				case "addnil":
+					gr.AddTask(nil)
+				case "addnofn":
+					gr.AddTask(dag.NewTask(fmt.Sprintf("t%02d", c.T), nil))
+				case "addnoid":
+					gr.AddTask(dag.NewTask("", func(context.Context, *getoptions.GetOpt, []string) error { return nil }))
+				case "dfs":
+					gr.DepthFirstSort()
+				case "validate":
+					gr.Validate(nil)
+				case "string":
+					_ = gr.String()
 				}
-				gr.TaskDependsOn(pick(c), ds...)
-			case "retries":
-				gr.TaskRetries(pick(c), c.R)
-			case "lookup":
-				gr.Task(fmt.Sprintf("t%02d", c.T))
-			case "addnil":
-				gr.AddTask(nil)
-			case "addnofn":
-				gr.AddTask(dag.NewTask(fmt.Sprintf("t%02d", c.T), nil))
-			case "addnoid":
-				gr.AddTask(dag.NewTask("", func(context.Context, *getoptions.GetOpt, []string) error { return nil }))
-			case "dfs":
-				gr.DepthFirstSort()
-			case "validate":
-				gr.Validate(nil)
-			case "string":
-				_ = gr.String()
 			}
 		}
+		applyCalls = apply
+		apply(gr, g, sc.Build)
 		graphs[g] = gr
 		// DepthFirstSort is read-only; observe it before the run, under the seeded map order.
 		vs, err := gr.DepthFirstSort()
@@ -578,18 +600,49 @@ func (r *runState) main() {
 		g := g
 		simrt.GoNamed(fmt.Sprintf("run:g%d", g), func() {
 			name := fmt.Sprintf("g%d", g)
-			err := graphs[g].Run(ctx, nil, []string{name})
-			simrt.Lock()
-			r.runErr[g] = err
-			r.returned[g] = true
-			r.retSlp[g] = simrt.SleepCount(name2run(g))
-			r.snapAtt[g] = append([]int(nil), r.attempts[g]...)
-			r.snapFinal[g] = append([]string(nil), r.finalRes[g]...)
-			r.snapInFn[g] = append([]bool(nil), r.inFn[g]...)
-			r.snapNEnt[g] = len(r.entries)
-			r.retSeq[g] = simrt.Note("run-return", name)
-			r.histAdd("return " + name + fmt.Sprint(r.runErr[g] == nil))
-			simrt.Unlock()
+			runOnce := func() {
+				err := graphs[g].Run(ctx, nil, []string{name})
+				simrt.Lock()
+				r.runErr[g] = err
+				r.returned[g] = true
+				r.retSlp[g] = simrt.SleepCount(name2run(g))
+				r.snapAtt[g] = append([]int(nil), r.attempts[g]...)
+				r.snapFinal[g] = append([]string(nil), r.finalRes[g]...)
+				r.snapInFn[g] = append([]bool(nil), r.inFn[g]...)
+				r.snapNEnt[g] = len(r.entries)
+				r.retSeq[g] = simrt.Note("run-return", name)
+				r.histAdd("return " + name + fmt.Sprint(r.runErr[g] == nil))
+				simrt.Unlock()
+			}
+			runOnce()
+			if sc.Phase2 != nil && ng == 1 && r.phase2Applicable() {
+				simrt.Lock()
+				r.posthocGraph(0, false) // the first Run is judged on its own
+				r.res.Probes["second_run_on_extended_graph"]++
+				r.histAdd("phase2")
+				for i := 0; i < n; i++ {
+					r.carried[i] = r.attempts[0][i] > 0
+					r.attempts[0][i] = 0
+				}
+				r.phase = 2
+				r.ms[0] = sc.ModelForPhase(0, 2)
+				r.m = r.ms[0]
+				r.returned[0] = false
+				simrt.Unlock()
+				applyCalls(graphs[0], 0, sc.Phase2.Build)
+				if sc.Phase2.MaxPar > 0 {
+					graphs[0].SetMaxParallel(sc.Phase2.MaxPar)
+					r.curMaxPar = sc.Phase2.MaxPar
+				}
+				vs, err := graphs[0].DepthFirstSort()
+				simrt.Lock()
+				r.dfsErr[0], r.dfs[0] = err, nil
+				for _, v := range vs {
+					r.dfs[0] = append(r.dfs[0], string(v.ID))
+				}
+				simrt.Unlock()
+				runOnce()
+			}
 			simrt.Send(fin, g)
 		})
 	}
@@ -604,34 +657,66 @@ func (r *runState) main() {
 // onSettled is the work-conservation oracle O16b. It is called when the scheduler loop polled twice
 // in a row without anything else happening or being able to happen (DESIGN §3.7, §5.4).
 func (r *runState) onSettled(gname string) {
-	if gname != "run:g0" || r.ng != 1 || !r.checkable() || r.failSeq != 0 || r.cancelSeq != 0 || r.returned[0] {
+	g := -1
+	for k := 0; k < r.ng; k++ {
+		if gname == name2run(k) {
+			g = k
+		}
+	}
+	if g < 0 || !r.checkable() || r.failSeq != 0 || r.cancelSeq != 0 || r.returned[g] {
 		return
 	}
 	r.res.Probes["settled_checks"]++
+	m := r.ms[g]
 	S := make([]bool, r.sc.N)
-	for _, i := range r.m.Order {
-		if isSkip(r.finalRes[0][i]) && !r.inFn[0][i] {
+	for _, i := range m.Order {
+		if isSkip(r.finalRes[g][i]) && !r.inFn[g][i] {
 			S[i] = true
 		}
 	}
-	sp := r.m.Dependents(S)
-	for _, i := range r.m.Order {
-		if r.attempts[0][i] > 0 || sp[i] {
+	sp := m.Dependents(S)
+	for _, i := range m.Order {
+		if r.attempts[g][i] > 0 || sp[i] || (g == 0 && r.carried[i]) {
 			continue
 		}
 		ready := true
-		for _, d := range r.m.Deps[i] {
-			if r.finalRes[0][d] != "ok" || r.inFn[0][d] {
+		for _, d := range m.Deps[i] {
+			if r.finalRes[g][d] != "ok" || r.inFn[g][d] {
 				ready = false
 			}
 		}
-		if ready && r.executing[0] < r.limit() {
-			r.fail("C16", "O16b", simrt.Note("settled", ""), "t%02d is ready (all dependencies returned nil), %d of %s slots are in use, no failure or cancellation occurred, and the scheduler stays idle", i, r.executing[0], limStr(r.limit()))
+		// a Task shared with the other graph may legitimately be waiting for that graph's
+		// execution of it to finish
+		if r.ng == 2 && (r.taskActive[i][0] > 0 || r.taskActive[i][1] > 0) {
+			continue
+		}
+		// slots in use: executing task functions, plus (two graphs only) goroutines of this graph
+		// that hold a slot while waiting for a Task lock held by the other graph
+		used := r.executing[g]
+		if r.ng == 2 {
+			used += simrt.BlockedCount(name2run(g)+"/", "lock")
+		}
+		if ready && used < r.limit() {
+			r.fail("C16", "O16b", simrt.Note("settled", ""), "g%d: t%02d is ready (all dependencies returned nil), %d of %s slots are in use, no failure or cancellation occurred, its Task is not executing anywhere, and the scheduler stays idle", g, i, used, limStr(r.limit()))
 		}
 	}
 }
 
 func name2run(g int) string { return fmt.Sprintf("run:g%d", g) }
+
+// phase2Applicable: the first Run returned nil, nothing was cancelled, and every task of the graph
+// ran successfully (so "its dependencies returned nil" has one meaning for old vertices).
+func (r *runState) phase2Applicable() bool {
+	if r.runErr[0] != nil || r.cancelSeq != 0 || !r.checkable() {
+		return false
+	}
+	for _, i := range r.ms[0].Order {
+		if r.finalRes[0][i] != "ok" || r.inFn[0][i] {
+			return false
+		}
+	}
+	return true
+}
 
 func limStr(l int) string {
 	if l >= 1<<30 {
@@ -673,7 +758,7 @@ func (r *runState) posthoc() {
 		res.Probes["capped_runs"]++
 	}
 	for g := 0; g < r.ng; g++ {
-		r.posthocGraph(g)
+		r.posthocGraph(g, true)
 	}
 	_ = sc
 }
@@ -687,7 +772,7 @@ func (r *runState) noneExecuting() bool {
 	return true
 }
 
-func (r *runState) posthocGraph(g int) {
+func (r *runState) posthocGraph(g int, final bool) {
 	sc, m, res := r.sc, r.ms[g], r.res
 	n := sc.N
 	// O16d DepthFirstSort (observed before the run)
@@ -726,8 +811,8 @@ func (r *runState) posthocGraph(g int) {
 	err := r.runErr[g]
 	nEntries := 0
 	for _, e := range r.entries {
-		if e.graph == g {
-			nEntries++
+		if e.graph == g && e.phase == r.phase {
+			nEntries++ // entries of the Run being judged (a second Run is judged on its own entries)
 		}
 	}
 	// O16c cycles are rejected before any task starts
@@ -756,6 +841,8 @@ func (r *runState) posthocGraph(g int) {
 	nF := 0
 	for _, i := range m.Order {
 		switch {
+		case att[i] == 0 && r.carried[i] && fin[i] == "ok":
+			// completed successfully in the first Run of this graph
 		case att[i] == 0:
 			N[i] = true
 		case inFn[i]:
@@ -874,7 +961,7 @@ func (r *runState) posthocGraph(g int) {
 		r.fail("C14", "O14e", r.retSeq[g], "g%d: the context was cancelled before Run was called, yet Run returned nil", g)
 	}
 	// O15d buffered output
-	if sc.Buffer && res.Verdict == simrt.VOK {
+	if sc.Buffer && final && res.Verdict == simrt.VOK {
 		out := r.writes[g].String()
 		for _, e := range r.entries {
 			if e.graph != g {
@@ -888,7 +975,7 @@ func (r *runState) posthocGraph(g int) {
 			if a.Chunks == 0 {
 				continue
 			}
-			want := strings.Join(attemptOutput(a, g, e.task, e.attempt), "")
+			want := strings.Join(attemptOutput(a, g, e.task, e.attempt+100*(e.phase-1)), "")
 			if strings.Count(out, want) != 1 {
 				r.fail("C15", "O15d", r.retSeq[g], "g%d: output of t%02d attempt %d is not one contiguous block in the writer's stream (wanted %s once in %s)", g, e.task, e.attempt+1, abbrev(want), abbrev(out))
 			}
